@@ -11,6 +11,24 @@ pub fn dispatch(a: &[String]) -> String {
   match a[0].as_str() {
     "feel" => crate::feel_eval(None, &a[1]),
     "feelctx" => crate::feel_eval(Some(&a[1]), &a[2]),
+    "numpred" => {
+      // numpred <feel expression>: the predicates of the number the expression evaluates to (whatever its representation)
+      let scope = dmntk_feel::Scope::default();
+      let node = dmntk_feel_parser::parse_expression(&scope, &a[1], false).unwrap();
+      match dmntk_feel_evaluator::evaluate(&scope, &node).unwrap() {
+        dmntk_feel::values::Value::Number(n) => format!(
+          "value={} is_integer={} even={} odd={} is_one={} is_positive={} is_negative={}",
+          n,
+          n.is_integer(),
+          n.even(),
+          n.odd(),
+          n.is_one(),
+          n.is_positive(),
+          n.is_negative()
+        ),
+        other => format!("NOT-A-NUMBER {}", other),
+      }
+    }
     "is_valid_date" => format!("{}", FeelDate::new_opt(i(&a[1]), i(&a[2]), i(&a[3])).is_some()),
     "ym_duration" => {
       let x = FeelDate::new(i(&a[1]), i(&a[2]), i(&a[3]));
